@@ -265,6 +265,58 @@ theorem json_summary_disagrees :
     jsonIncome d12eWitness = 12000 ∧ jsonCredits d12eWitness = 0 ∧ jsonNet d12eWitness = some 19300 := by
   decide +kernel
 
+/-! ## dates (the calendar stream of the check)
+
+"Renders without error for any analysable set of transactions" is a totality statement about the implementation (oracle
+only).  What the model contributes is the two calendar facts every date position of the report rests on. -/
+
+private theorem dch_inj : ∀ i, i < 10 → ∀ j, j < 10 → dch i = dch j → i = j := by decide
+
+/-- Month keys separate calendar months: two days have the same `'%Y-%m'` key only if they are in the same month OF THE SAME
+YEAR (years up to 9999).  So `num_months`, `by_month` and the monthly table never merge December 2024 with December 2025,
+nor 29 Feb 2000 with 29 Feb 2400. -/
+theorem month_key_injective (y m y' m' : Nat) (hy : y < 10000) (hy' : y' < 10000) (hm : m < 100) (hm' : m' < 100)
+    (h : monthKey y m = monthKey y' m') : y = y' ∧ m = m' := by
+  simp only [monthKey, pad4, pad2, List.cons_append, List.nil_append, List.cons.injEq, and_true, true_and] at h
+  obtain ⟨h3, h2, h1, h0, g1, g0⟩ := h
+  have e3 := dch_inj _ (Nat.mod_lt _ (by decide)) _ (Nat.mod_lt _ (by decide)) h3
+  have e2 := dch_inj _ (Nat.mod_lt _ (by decide)) _ (Nat.mod_lt _ (by decide)) h2
+  have e1 := dch_inj _ (Nat.mod_lt _ (by decide)) _ (Nat.mod_lt _ (by decide)) h1
+  have e0 := dch_inj _ (Nat.mod_lt _ (by decide)) _ (Nat.mod_lt _ (by decide)) h0
+  have f1 := dch_inj _ (Nat.mod_lt _ (by decide)) _ (Nat.mod_lt _ (by decide)) g1
+  have f0 := dch_inj _ (Nat.mod_lt _ (by decide)) _ (Nat.mod_lt _ (by decide)) g0
+  constructor <;> omega
+
+/-- The day text `'%m/%d'` has forgotten the year, and the year matters: every day that exists in SOME year exists in the
+year `y0` exactly when `y0` is a leap year.  Reading `'MM/DD'` back as a date under a fixed non-leap year (strptime's
+default is 1900) is therefore partial - it has no answer for `02/29` - while any leap default is total. -/
+theorem day_key_needs_leap_year (y0 : Nat) :
+    (∀ y m d, validDay y m d = true → validDay y0 m d = true) ↔ isLeap y0 = true := by
+  constructor
+  · intro h
+    have h29 := h 2000 2 29 (by decide)
+    simp only [validDay, daysIn, Bool.and_eq_true, decide_eq_true_eq, if_true] at h29
+    cases hl : isLeap y0 with
+    | true => rfl
+    | false => simp [hl] at h29
+  · intro hl y m d hv
+    have key : daysIn y m ≤ daysIn y0 m := by
+      unfold daysIn
+      by_cases h2 : m = 2
+      · simp only [h2, if_true, hl]; split <;> omega
+      · simp only [h2, if_false]; exact Nat.le_refl _
+    simp only [validDay, Bool.and_eq_true, decide_eq_true_eq] at hv ⊢
+    exact ⟨hv.1, Nat.le_trans hv.2 key⟩
+
+/-- 1900 - the year `strptime` assumes when the format has none - is not a leap year, 2024 is: 29 Feb 2024 is a day, its
+`'02/29'` is not a day of 1900 -/
+theorem leap_day_witness : validDay 2024 2 29 = true ∧ dayKey 2 29 = "02/29".toList ∧ validDay 1900 2 29 = false ∧
+    isLeap 1900 = false ∧ isLeap 2000 = true ∧ isLeap 2100 = false := by decide
+
+/-- a statement across a year end: two month keys, in order of appearance; all transactions in one month: one -/
+example : monthsSeen [(2024, 12, 31), (2025, 1, 1), (2024, 12, 1)] = ["2024-12".toList, "2025-01".toList] ∧
+    numMonths [(2024, 2, 29), (2024, 2, 1), (2024, 2, 29)] = 1 ∧ numMonths [(2000, 2, 29), (2400, 2, 29)] = 2 := by decide +kernel
+
 /-! ### non-vacuity -/
 
 example : jsonEncodeStr "a\"\\\n<é😀".toList = "\"a\\\"\\\\\\n<\\u00e9\\ud83d\\ude00\"".toList := by decide +kernel
